@@ -13,6 +13,8 @@ package sort
 
 //@ func (g *gen) genFuncFor(typ *types.Slice) (err error)
 //@ emits: decls
+// only the sign of derived Compare is specified here (a user Compare method may return any negative or positive number)
+//@ o-order-by-sign: true
 //@ serves: sort len=1 typ=typs[0]
 //@ o-sig: (list $typ) (r $typ)
 //@ o-mutates: list
